@@ -33,6 +33,7 @@ partial def tyOfMich : Mich → Option Ty
   | .prim "lambda" [a, b] _ => do pure (.lambda (← tyOfMich a) (← tyOfMich b))
   | .prim "map" [a, b] _ => do pure (.map (← tyOfMich a) (← tyOfMich b))
   | .prim "set" [a] _ => (tyOfMich a).map .set
+  | .prim "big_map" [a, b] _ => do pure (.bigMap (← tyOfMich a) (← tyOfMich b))
   | _ => none
 
 partial def tyToMich : Ty → Mich
@@ -59,6 +60,7 @@ partial def tyToMich : Ty → Mich
   | .lambda a b => .prim "lambda" [tyToMich a, tyToMich b] []
   | .map a b => .prim "map" [tyToMich a, tyToMich b] []
   | .set a => .prim "set" [tyToMich a] []
+  | .bigMap a b => .prim "big_map" [tyToMich a, tyToMich b] []
 
 /-- the entrypoint / tag a field annotation names (`%name`; none: `dflt`) -/
 def annotName (dflt : String) : List String → List Nat
@@ -155,6 +157,7 @@ mutual
     | .prim "CONS" [] _ => some .CONS
     | .prim "SIZE" [] _ => some .SIZE
     | .prim "EMPTY_MAP" [k, v] _ => do pure (.EMPTY_MAP (← tyOfMich k) (← tyOfMich v))
+    | .prim "EMPTY_BIG_MAP" [k, v] _ => do pure (.EMPTY_BIG_MAP (← tyOfMich k) (← tyOfMich v))
     | .prim "EMPTY_SET" [t] _ => (tyOfMich t).map .EMPTY_SET
     | .prim "MEM" [] _ => some .MEM
     | .prim "GET" [] _ => some .GET
@@ -239,6 +242,9 @@ mutual
     | .map _ _ xs => .seq (xs.map fun e => match e with
         | .pair k v => .prim "Elt" [valToMich k, valToMich v] []
         | o => valToMich o)
+    | .bigMap _ _ xs => .seq (xs.map fun e => match e with
+        | .pair k v => .prim "Elt" [valToMich k, valToMich v] []
+        | o => valToMich o)
     | .lam _ _ body => instrToMich body
     | .contract _ s => .str (uncodes s)
     -- operations: what `OperationType.content` records
@@ -270,6 +276,7 @@ mutual
     | .RIGHT t => .prim "RIGHT" [tyToMich t] [] | .NIL t => .prim "NIL" [tyToMich t] []
     | .CONS => .prim "CONS" [] [] | .SIZE => .prim "SIZE" [] []
     | .EMPTY_MAP k v => .prim "EMPTY_MAP" [tyToMich k, tyToMich v] []
+    | .EMPTY_BIG_MAP k v => .prim "EMPTY_BIG_MAP" [tyToMich k, tyToMich v] []
     | .EMPTY_SET t => .prim "EMPTY_SET" [tyToMich t] []
     | .MEM => .prim "MEM" [] [] | .GET => .prim "GET" [] [] | .UPDATE => .prim "UPDATE" [] []
     | .GET_AND_UPDATE => .prim "GET_AND_UPDATE" [] []
